@@ -83,6 +83,32 @@ def script_sizes(rng, kinds):
     return {"members": members, "steps": steps, "both": True, "settle": 30}
 
 
+def script_refused(rng, kinds):
+    """The error path of the responder's packet factory, often: with RTX negotiated a packet whose padding count exceeds its
+    payload is refused; whatever the factory does with the refused packet (pools!) must not hand the caller's header or buffer
+    to a later packet.  A pool gives an object back only some of the time (per-P slots, drops under the race detector), so
+    the refusal is repeated with ordinary packets in between, and everything is requested again at the end."""
+    members = [{"k": k, "o": {"ivl": 1, "size": 64, "k": 3, "n": 1, "rate": 50_000_000, "text": 0}} for k in kinds]
+    steps = [{"a": "bindw"}, {"a": "bindr"},
+             {"a": "bindl", "s": 1, "nack": True, "twcc": 0, "rtx": True, "fec": True},
+             {"a": "bindm", "s": 2, "nack": True, "twcc": 0, "pli": False}]
+    w, sent, ident = rng.choice([20, 65500]), [], 0
+    for i in range(16):
+        w += 1
+        ident += 1
+        steps.append({"a": "wrtp", "s": 1, "w": w % 65536, "id": ident, "len": rng.choice([30, 50, 200]), "shape": 4, "fail": False})
+        for _ in range(3):
+            w += 1
+            ident += 1
+            steps.append({"a": "wrtp", "s": 1, "w": w % 65536, "id": ident, "len": rng.choice([0, 10, 100, 1460, 1461]),
+                          "shape": rng.choice([0, 3, 5]), "fail": False})
+            sent.append(w % 65536)
+        if i % 4 == 3:
+            steps += [{"a": "rrtcp", "s": 1, "kind": "nack", "nums": sent[-12:], "id": 200 + i, "fail": False}, {"a": "wait", "ms": 3}]
+    steps += [{"a": "wait", "ms": 10}, {"a": "close"}]
+    return {"members": members, "steps": steps, "both": True, "settle": 30}
+
+
 def script_jitter(rng, kinds):
     """The jitter buffer interceptor returns EARLIER packets: playout starts after 50 packets; then a packet is missing at the
     playout head (reads fail while later packets keep arriving and are buffered), the missing packet arrives late and
@@ -139,6 +165,8 @@ def run(ctx):
                                                   rng.randrange(2, 5)), 40))
     for kinds in (["nackresp"], ["nackresp", "flexfec"], ["pacing", "nackresp"], ["pdsend", "nackresp"], ["nackresp", "ccleaky"]):
         scripts.append(script_sizes(rng, kinds))
+    for kinds in (["nackresp"], ["nackresp", "flexfec"], ["pdsend", "nackresp"]):
+        scripts.append(script_refused(rng, kinds))
     for kinds in (["jitter"], ["pdrecv", "jitter"], ["jitter", "stats"]):
         for _ in range(2 if ctx.quick else 20):
             scripts.append(script_jitter(rng, kinds))
